@@ -18,6 +18,7 @@ CONSTANTS
     HttpWriteDbs <- MCEmpty
     TestMethods = {}
     TestPatterns = {}
+    TestSubtrees = {}
 INVARIANTS
     TypeOK
     NearestGrantDecides
